@@ -303,7 +303,7 @@ namespace cnl {
                                 + overflow_digits<Rhs, polarity::positive>::value
                         > traits::positive_digits)
                     && ((lhs < Lhs{0}) ? (rhs > Rhs{0}) && (traits::lowest() / rhs) > lhs
-                                       : (rhs < Rhs{0}) && (traits::lowest() / rhs) < lhs);
+                                       : (rhs < Rhs{0}) && (rhs != -1) && (traits::lowest() / rhs) < lhs);
             }
         };
 #if defined(__GNUC__)
